@@ -15,6 +15,7 @@
 #include <linux/futex.h>
 #include <pthread.h>
 #include <sched.h>
+#include <semaphore.h>
 #include <sys/syscall.h>
 #include <time.h>
 #include <unistd.h>
@@ -739,6 +740,98 @@ extern "C" int pthread_mutex_timedlock( pthread_mutex_t* m, const struct timespe
 extern "C" int pthread_mutex_clocklock( pthread_mutex_t* m, clockid_t, const struct timespec*)
 {
    return pthread_mutex_lock( m);
+}
+
+// ----- spin locks and POSIX semaphores: the real object is only ever tried,
+// never waited for (the owner may be parked); a failed attempt is a yield
+
+extern "C" {
+int __interceptor_pthread_spin_lock( pthread_spinlock_t*) __attribute__(( weak));
+int __interceptor_pthread_spin_trylock( pthread_spinlock_t*) __attribute__(( weak));
+int __interceptor_pthread_spin_unlock( pthread_spinlock_t*) __attribute__(( weak));
+int __interceptor_sem_wait( sem_t*) __attribute__(( weak));
+int __interceptor_sem_trywait( sem_t*) __attribute__(( weak));
+int __interceptor_sem_timedwait( sem_t*, const struct timespec*) __attribute__(( weak));
+int __interceptor_sem_post( sem_t*) __attribute__(( weak));
+}
+
+extern "C" int pthread_spin_lock( pthread_spinlock_t* l)
+{
+   static decltype( &__interceptor_pthread_spin_lock)  real = nullptr;
+   static decltype( &__interceptor_pthread_spin_trylock)  real_try = nullptr;
+   if (real == nullptr) real = realFn( &__interceptor_pthread_spin_lock, "pthread_spin_lock");
+   if (real_try == nullptr) real_try = realFn( &__interceptor_pthread_spin_trylock, "pthread_spin_trylock");
+   if (tl_id < 0 || !g.active.load())
+      return real( l);
+   point( pkLock);
+   for (;;)
+   {
+      const int  rc = real_try( l);
+      if (rc != EBUSY)
+         return rc;
+      ++g.st.blocked_lock;
+      point( pkYield);
+   }
+}
+
+extern "C" int pthread_spin_trylock( pthread_spinlock_t* l)
+{
+   static decltype( &__interceptor_pthread_spin_trylock)  real = nullptr;
+   if (real == nullptr) real = realFn( &__interceptor_pthread_spin_trylock, "pthread_spin_trylock");
+   point( pkLock);
+   return real( l);
+}
+
+extern "C" int pthread_spin_unlock( pthread_spinlock_t* l)
+{
+   static decltype( &__interceptor_pthread_spin_unlock)  real = nullptr;
+   if (real == nullptr) real = realFn( &__interceptor_pthread_spin_unlock, "pthread_spin_unlock");
+   const int  rc = real( l);
+   point( pkUnlock);
+   return rc;
+}
+
+extern "C" int sem_wait( sem_t* s)
+{
+   static decltype( &__interceptor_sem_wait)  real = nullptr;
+   static decltype( &__interceptor_sem_trywait)  real_try = nullptr;
+   if (real == nullptr) real = realFn( &__interceptor_sem_wait, "sem_wait");
+   if (real_try == nullptr) real_try = realFn( &__interceptor_sem_trywait, "sem_trywait");
+   if (tl_id < 0 || !g.active.load())
+      return real( s);
+   point( pkLock);
+   for (;;)
+   {
+      if (real_try( s) == 0)
+         return 0;
+      if (errno != EAGAIN)
+         return -1;
+      ++g.st.blocked_lock;
+      point( pkYield);
+   }
+}
+
+extern "C" int sem_timedwait( sem_t* s, const struct timespec*)
+{
+   // as sem_wait: a post that never comes ends at the step cap
+   return sem_wait( s);
+}
+
+extern "C" int sem_trywait( sem_t* s)
+{
+   static decltype( &__interceptor_sem_trywait)  real = nullptr;
+   if (real == nullptr) real = realFn( &__interceptor_sem_trywait, "sem_trywait");
+   point( pkLock);
+   return real( s);
+}
+
+extern "C" int sem_post( sem_t* s)
+{
+   static decltype( &__interceptor_sem_post)  real = nullptr;
+   if (real == nullptr) real = realFn( &__interceptor_sem_post, "sem_post");
+   const int  rc = real( s);
+   point( pkUnlock);
+   return rc;
 }
 
 // ----- reader/writer locks (std::shared_mutex)
